@@ -5,7 +5,8 @@ from .c17 import FULL
 
 TRUSTED = ['Jinja2 lexer/parser (the translator uses the generator\'s own environment) and runtime (the fragment is rendered by Jinja itself on the real objects)',
            'C/C++/Objective-C/C++-CLI give an enumerator with initialiser e the value of e and see only earlier enumerators; Java ordinals follow declaration order',
-           'JniFlags::flags/create in the support library convert by 1u << ordinal (read, not modelled)']
+           'JniFlags::flags/create in the support library convert by 1u << ordinal: modelled in Lang/JniFlags.v, exercised by J-runtime (the generated glue and the '
+           'shipped support library are built with g++ / javac and every constant is sent across the boundary in both directions in a JVM)']
 ASSUMPTIONS = ['model = TIR interpreter (Jinja/Interp.v) on coq/Gen/Templates.v regenerated from /repo each run; render lemmas in Jinja/Frag*.v; '
                'meaning of the printed enumerators in Lang/EnumBody.v',
                'known finding C08-K1: an `all` flag before an ordinary flag (or with no ordinary flag at all) gives a body that does not compile']
@@ -172,6 +173,37 @@ def run(ctx):
                     ctx.add_violation({'kind': 'flag-bits-in-generated-file', 'generator': gen_},
                                       '%s: the ordinary flags of one type are numbered %s in the file the pipeline wrote (must be 0, 1, 2, ... per type)' % (path, shifts),
                                       {'files': gc['files'], 'path': path, 'text': text[:1500]})
+    # ---- J-runtime: every constant crosses the C++ <-> Java boundary at run time (generated glue + the shipped JNI support library, built and run)
+    from .. import jni_runtime
+    specs = [['ord'], ['ord', 'none', 'ord', 'ord', 'all'], ['ord'] * 31, ['ord'] * 32, ['none', 'ord', 'ord', 'all']]
+    sizes = [1, 3, 17]
+    if ctx.thorough:
+        for _ in range(6):
+            k = r.randint(1, 30)
+            sp = ['ord'] * k
+            if r.random() < 0.5:
+                sp.insert(r.randrange(len(sp) + 1), 'none')
+            if r.random() < 0.5:
+                sp.append('all')
+            specs.append(sp)
+        sizes += [r.randint(2, 60) for _ in range(3)]
+    idl, rt_enums, rt_flags = jni_runtime.program(sizes, specs)
+    ok, rres = run_impl('gen_run', {'cases': [{'files': {'a.djinni': idl}, 'options': jni_runtime.OPTIONS, 'keep_content': True, 'include_support': True, 'timeout_s': 120,
+                                               'ops': [['parse', 'a.djinni'], ['generate', 'cpp'], ['generate', 'java']]}]}, timeout=900)
+    rt = {'enum_sizes': sizes, 'flag_specs': [''.join(x[0] for x in sp) for sp in specs], 'mismatches': None}
+    if not ok or 'steps' not in rres['results'][0] or any(s_['r'] != 'ok' for s_ in rres['results'][0]['steps']):
+        ctx.broken.append({'kind': 'harness', 'name': 'J-runtime generation', 'detail': json.dumps(rres)[:1200] if ok else str(rres)[-1200:]})
+    else:
+        try:
+            mis = jni_runtime.build_and_run(rres['results'][0]['tree'], rt_enums, rt_flags)
+            rt['mismatches'] = len(mis)
+            if mis:
+                ctx.add_violation({'kind': 'value-changes-crossing-the-language-boundary', 'direction': 'C++->Java' if 'C++->Java' in mis[0] else 'Java->C++'},
+                                  'built and run (generated C++/Java/JNI + support library): %d constants change their value crossing the boundary, e.g. %s' % (len(mis), mis[:3]),
+                                  {'idl': idl, 'mismatches': mis[:40], 'how': 'tools/pdv/jni_runtime.py: g++ -shared, javac, java'})
+        except jni_runtime.JudgeProblem as e:
+            ctx.broken.append({'kind': 'harness', 'name': 'J-runtime build', 'detail': str(e)[-1500:]})
+    ctx.extra_cov['jni_runtime'] = rt
     mm = [{'fragment': m['fragment'], 'decl': m['decl'], 'impl_text': m['text'], 'files': m['files']} for m in (mism or [])]
     ctx.add_corr('K-jinja/enums', len(flat), len({(f['decl'], json.dumps(f['files'])) for f in flat}), mm,
                  [{'fragment': flat[0]['fragment'], 'text': flat[0]['text']}] if flat else [], dist,
